@@ -137,5 +137,81 @@ _adj('lw', "  lw   x1, 4(x10)")
 _adj('sw_lw', "  sw   x3, 8(x10)\n  lw   x4, 8(x10)\n  add  x1, x1, x4")
 _adj('csrw_lw', "  csrw proc2mngr, x1 > 0\n  lw   x5, 4(x10)\n  csrw proc2mngr, x5 > 0")
 
+_adj('lw_lw', "  lw   x4, 4(x10)\n  lw   x1, 4(x10)")
+_adj('lw_lw_add', "  lw   x4, 4(x10)\n  lw   x5, 4(x10)\n  add  x1, x4, x0")
+_adj('sw_sw', "  sw   x3, 8(x10)\n  sw   x1, 12(x10)")
+
+
+# side-effecting instructions in the shadow of a (symbolic-direction) branch: they must not take effect when the branch is taken
+def _shadow(name, shadow, tail=''):
+  PROGS['shadow_' + name] = BASE + '''
+  csrr x1, mngr2proc < 1
+  csrr x3, mngr2proc < 2
+  addi x2, x0, 5
+  sw   x2, 4(x10)
+  bne  x1, x3, T
+''' + shadow + '''
+T:
+  csrr x6, mngr2proc < 3
+  lw   x7, 4(x10)
+  add  x8, x6, x7
+  csrw proc2mngr, x8 > 0
+  csrw proc2mngr, x2 > 0
+''' + tail
+
+_shadow('csrr', "  csrr x2, mngr2proc < 9\n  addi x2, x2, 1")
+_shadow('csrw', "  csrw proc2mngr, x1 > 0\n  addi x2, x2, 1")
+_shadow('sw', "  sw   x1, 4(x10)\n  addi x2, x2, 1")
+_shadow('lw_csrw', "  lw   x2, 4(x10)\n  csrw proc2mngr, x2 > 0")
+
+# immediate boundaries: most negative / most positive I-immediates, negative load/store offsets, far forward and backward branches
+PROGS['imm_boundaries'] = BASE + '''
+  csrr x1, mngr2proc < 1
+  addi x2, x1, -2048
+  addi x3, x1, 2047
+  addi x4, x10, 8
+  sw   x2, -4(x4)
+  sw   x3, -8(x4)
+  lw   x5, -4(x4)
+  lw   x6, -8(x4)
+  add  x7, x5, x6
+  csrw proc2mngr, x7 > 0
+  csrw proc2mngr, x2 > 0
+'''
+_NOPS = "\n".join("  addi x0, x0, 0" for _ in range(515))
+PROGS['far_forward_branch'] = '''
+  csrr x1, mngr2proc < 1
+  csrr x2, mngr2proc < 2
+  addi x3, x0, 1
+  bne  x1, x2, FAR
+  addi x3, x3, 2
+  bne  x3, x0, FAR2
+''' + _NOPS.replace("\\n", "\n") + '''
+FAR:
+  addi x3, x3, 4
+FAR2:
+  addi x3, x3, 8
+  csrw proc2mngr, x3 > 0
+'''
+PROGS['far_backward_branch'] = '''
+  csrr x1, mngr2proc < 1
+  addi x4, x0, 1
+  and  x1, x1, x4
+  addi x3, x0, 0
+  bne  x0, x4, START
+BACK:
+  addi x3, x3, 8
+  csrw proc2mngr, x3 > 0
+  bne  x0, x4, END
+''' + _NOPS.replace("\\n", "\n") + '''
+START:
+  addi x3, x3, 1
+  bne  x1, x0, BACK
+  addi x3, x3, 2
+  csrw proc2mngr, x3 > 0
+END:
+  addi x0, x0, 0
+'''
+
 # (src_delay, sink_delay, mem_latency)
 TIMINGS = [(0, 0, 1), (0, 3, 2), (3, 0, 3), (3, 3, 2), (0, 5, 2), (2, 1, 1)]
